@@ -422,3 +422,77 @@ From GV Require Import C38.Exec C38.Proofs3.
 Lemma ormap_order_refuted :
   value1 (joinl merge1 m_new [w_a; w_b; w_c]) ≠ value1 (joinl merge1 m_new [w_b; w_c; w_a]).
 Proof. vm_compute. discriminate. Qed.
+
+(* ------------------------------------------------------------------ PNCounter: delta shipping *)
+Lemma cmax_empty_l a : cmax ∅ a = a.
+Proof. apply map_eq; intros n. rewrite lookup_cmax, lookup_empty. destruct (a !! n); reflexivity. Qed.
+
+Lemma g_inv_ship_nothing c acc : g_inv c acc → g_delta c = ∅ → g_inv (g_reset c) (g_new :: acc).
+Proof.
+  intros H He k. rewrite gjoin_cons. simpl. rewrite cmax_empty_l. specialize (H k). rewrite He in H.
+  rewrite lookup_empty in *. exact H.
+Qed.
+
+Definition p_inv (c : pncounter) (acc : list pncounter) : Prop :=
+  g_inv (p_inc c) (p_inc <$> acc) ∧ g_inv (p_dec c) (p_dec <$> acc).
+
+Lemma g_deltaOf_None c : g_deltaOf c = None → g_delta c = ∅.
+Proof. unfold g_deltaOf. destruct (decide _) as [E|]; [intros _; exact E|discriminate]. Qed.
+
+Lemma p_inv_ship c acc d : p_inv c acc → p_deltaOf c = Some d → p_inv (p_reset c) (d :: acc).
+Proof.
+  intros [Hi Hd] Hs. unfold p_deltaOf in Hs. unfold p_inv. simpl.
+  destruct (g_deltaOf (p_inc c)) as [di|] eqn:Ei, (g_deltaOf (p_dec c)) as [dd|] eqn:Ed; try discriminate; injection Hs as <-; simpl.
+  - split; apply g_inv_ship; assumption.
+  - split; [apply g_inv_ship; assumption|apply g_inv_ship_nothing; [assumption|apply g_deltaOf_None, Ed]].
+  - split; [apply g_inv_ship_nothing; [assumption|apply g_deltaOf_None, Ei]|apply g_inv_ship; assumption].
+Qed.
+
+Lemma p_run_inv ops : ∀ c acc, p_inv c acc → p_nowrap c ops → p_inv (p_run c ops acc).1 (p_run c ops acc).2.
+Proof.
+  induction ops as [|[n v|n v|] ops IH]; intros c acc Hi Hw; simpl in *.
+  - exact Hi.
+  - destruct Hw as [Hlt Hw]. apply IH; [|exact Hw]. destruct Hi as [H1 H2]. split; [apply g_inv_inc; assumption|exact H2].
+  - destruct Hw as [Hlt Hw]. apply IH; [|exact Hw]. destruct Hi as [H1 H2]. split; [exact H1|apply g_inv_inc; assumption].
+  - destruct (p_deltaOf c) as [d|] eqn:E.
+    + apply IH; [apply p_inv_ship; assumption|exact Hw].
+    + apply IH; assumption.
+Qed.
+
+Lemma p_run_app c ops1 ops2 acc :
+  p_run c (ops1 ++ ops2) acc = p_run (p_run c ops1 acc).1 ops2 (p_run c ops1 acc).2.
+Proof.
+  revert c acc. induction ops1 as [|[n v|n v|] ops1 IH]; intros c acc; simpl; [reflexivity|apply IH|apply IH|].
+  destruct (p_deltaOf c); apply IH.
+Qed.
+
+Lemma p_shipped_is_state ops :
+  p_nowrap p_new (ops ++ [PShip]) →
+  let r := p_run p_new (ops ++ [PShip]) [] in
+  gjoin (p_inc <$> r.2) = g_state (p_inc r.1) ∧ gjoin (p_dec <$> r.2) = g_state (p_dec r.1).
+Proof.
+  intros Hw. simpl.
+  assert (p_inv p_new []) as H0.
+  { split; intros n; simpl; rewrite !lookup_empty; (split; [intros [? [=]]|reflexivity]). }
+  destruct (p_run_inv _ _ _ H0 Hw) as [Hi Hd].
+  assert (g_delta (p_inc (p_run p_new (ops ++ [PShip]) []).1) = ∅ ∧ g_delta (p_dec (p_run p_new (ops ++ [PShip]) []).1) = ∅) as [Ei Ed].
+  { rewrite p_run_app. simpl. destruct (p_deltaOf _) eqn:E; simpl; [split; reflexivity|].
+    unfold p_deltaOf in E. destruct (g_deltaOf (p_inc _)) eqn:E1, (g_deltaOf (p_dec _)) eqn:E2; try discriminate.
+    split; apply g_deltaOf_None; assumption. }
+  split; apply map_eq; intros n.
+  - destruct (Hi n) as [_ H2]. symmetry. apply H2. rewrite Ei. apply lookup_empty.
+  - destruct (Hd n) as [_ H2]. symmetry. apply H2. rewrite Ed. apply lookup_empty.
+Qed.
+
+Theorem p_delta_converges ops (bi bd : gmap N N) (ds' : list pncounter) :
+  p_nowrap p_new (ops ++ [PShip]) →
+  let r := p_run p_new (ops ++ [PShip]) [] in
+  (∀ d, d ∈ ds' ↔ d ∈ r.2) →
+  joinl cmax bi ((λ d, g_state (p_inc d)) <$> ds') = cmax bi (g_state (p_inc r.1)) ∧
+  joinl cmax bd ((λ d, g_state (p_dec d)) <$> ds') = cmax bd (g_state (p_dec r.1)).
+Proof.
+  intros Hw r Hs. destruct (p_shipped_is_state ops Hw) as [E1 E2]. cbv zeta in E1, E2. subst r.
+  rewrite <- E1, <- E2. unfold gjoin. rewrite <- !joinl_cmax_foldr. split; apply g_full_state_converges; intros y.
+  - rewrite <- list_fmap_compose. rewrite !elem_of_list_fmap. split; intros [d [-> Hd]]; exists d; (split; [reflexivity|]); apply Hs; exact Hd.
+  - rewrite <- list_fmap_compose. rewrite !elem_of_list_fmap. split; intros [d [-> Hd]]; exists d; (split; [reflexivity|]); apply Hs; exact Hd.
+Qed.
